@@ -90,9 +90,46 @@ def _check_source(R, obs, name, src, calls, family):
                         break
 
 
+DEAD_TAILS = [
+    ("cast", "float x = 3;\n      r = r + x;"),
+    ("store-load", "int k = 2;\n      k = k + 1;\n      r = r + k;"),
+    ("copy", "float y = r;\n      y = y * 2;\n      r = y;"),
+    ("param", "n = n + 1;\n      r = r + n;"),
+    ("global", "g = 7;\n      r = r + g * 2;"),
+    ("index", "int[4] t;\n      t[1] = 5;\n      int j = 1;\n      r = r + t[j];"),
+]
+
+
+def dead_code_cases():
+    """statements the optimisation passes rewrite (constant conversions, store-then-load), placed *behind* a break, continue
+    or return in the same compound statement: never executed, but still part of the module and still to be well-formed"""
+    out = []
+    for tname, tail in DEAD_TAILS:
+        for flow in ("break", "continue", "return r"):
+            for loop in ("for (int i = 0; i < n; ++i)", "while (r < n)", "do"):
+                close = "} while (r < n)" if loop == "do" else "}"
+                for guarded in (False, True):
+                    inner = "%s;\n      %s" % (flow, tail)
+                    if guarded:
+                        inner = "if (n > 2) {\n      %s\n      }" % inner
+                    src = ("int g;\nexport function f (int n) -> float {\n  float r = 0.5;\n  %s {\n      r = r + 1.0;\n      %s\n  %s\n  return r;\n}\n"
+                           % (loop, inner, close))
+                    out.append(("dead-code:%s:%s:%s:%s" % (tname, flow.split()[0], loop.split()[0], "guarded" if guarded else "plain"), src))
+        # behind a return at function level and inside a plain block
+        out.append(("dead-code:%s:return:function" % tname, "int g;\nexport function f (int n) -> float {\n  float r = 0.5;\n  return r;\n      %s\n}\n" % tail))
+        out.append(("dead-code:%s:return:block" % tname,
+                    "int g;\nexport function f (int n) -> float {\n  float r = 0.5;\n  {\n    return r;\n      %s\n  }\n  return r;\n}\n" % tail))
+    return out
+
+
 def run_shard(tier, seed, shard, n, R):
     obs = vmobs.Observer()
     i = 0
+    for name, src in dead_code_cases():
+        i += 1
+        if i % n == shard:
+            check_source(R, obs, name, src, [("f", [({"n": 3}, {"g": 0}), ({"n": 0}, {"g": 0})])], "dead-code")
+            R.count("dead_code_cases")
     for name, module, fname, inputs in fwdtemplates.cases():
         i += 1
         if i % n == shard:
@@ -159,8 +196,13 @@ def check_linked_split(R, rng, label):
         roots = [mods[n] for n, _, _, _ in sp.roots]
         try:
             with nslapi.quiet():
-                loader = nslapi.LinearIR.FilesystemModuleLoader()
-                linker = nslapi.LinearIR.Linker(loader=loader)
+                # every other link uses the linker's own default loader (one object for the whole process: this shard
+                # links many different programs whose modules carry the same names), the others a fresh loader
+                if rng.random() < 0.5:
+                    linker = nslapi.LinearIR.Linker()
+                    R.count("links_with_the_default_loader")
+                else:
+                    linker = nslapi.LinearIR.Linker(loader=nslapi.LinearIR.FilesystemModuleLoader())
                 for m in roots:
                     linker.AddModule(m)
                 program = linker.Link()
